@@ -179,7 +179,8 @@ class ExprGen:
         self._c("longstring")
         d = self.r.choice(["", "", "xyz", "EOS", "a1"])
         body = "".join(self.r.choice(["a", "b", " ", "%20", "%u0041", '"', "}", "{", "\n", "é", "x"]) for _ in range(self.r.randint(0, 6)))
-        body = body.replace('"' + d + "}", "")
+        while '"' + d + "}" in body:       # the body must not contain its own closing delimiter
+            body = body.replace('"' + d + "}", "")
         raw = body.encode()
         off = 2 + 2 * (len(d) + 1)
         return (["{" + d + '"' + body + '"' + d + "}"], "(str %s 1 %s %s %d)" % (hx(raw), hx(d), hx(raw), off), "OPEN_LONG_STRING")
